@@ -63,10 +63,12 @@ def _n(t, env, wide):
         if inner[0] == "int" and t[3] in BYTES and inner[1] >= 0:
             return ("int", inner[1] & ((1 << (8 * BYTES[t[3]])) - 1))
         return ("trunc", t[3], inner)
-    if k == "index":
-        return ("idx", _n(t[1], env, wide), _n(t[2], env, wide))
-    if k == "cindex":
-        return ("idx", _n(t[1], env, wide), ("int", t[2]))
+    if k == "index" or k == "cindex":
+        b_n = _n(t[1], env, wide)
+        i_n = _n(t[2], env, wide) if k == "index" else ("int", t[2])
+        if b_n[0] == "arr" and i_n[0] == "int" and 0 <= i_n[1] < len(b_n[1]):
+            return b_n[1][i_n[1]]        # element of an array literal
+        return ("idx", b_n, i_n)
     if k == "after" and is_call(t[1], "core::slice::<impl [T]>::swap") and t[2] == 0:
         c = t[1]
         return ("swap", _n(t[3], env, wide), _n(c[2][1], env, wide), _n(c[2][2], env, wide))
@@ -94,10 +96,12 @@ def _n(t, env, wide):
                     elems.append(_n(base[4][i_], env, wide))
             return ("arr", tuple(elems))
         e = t[2]
-        if e[0] == "i":
-            return ("upd", _n(t[1], env, wide), _n(e[1], env, wide), _n(t[3], env, wide))
-        if e[0] == "ci" and not e[2]:
-            return ("upd", _n(t[1], env, wide), ("int", e[1]), _n(t[3], env, wide))
+        if e[0] == "i" or (e[0] == "ci" and not e[2]):
+            b_n, i_n, v_n = _n(t[1], env, wide), (_n(e[1], env, wide) if e[0] == "i" else ("int", e[1])), _n(t[3], env, wide)
+            if b_n[0] == "arr" and i_n[0] == "int" and 0 <= i_n[1] < len(b_n[1]):
+                # a store at an index that only normalisation shows to be a constant
+                return ("arr", b_n[1][:i_n[1]] + (v_n,) + b_n[1][i_n[1] + 1:])
+            return ("upd", b_n, i_n, v_n)
     if k == "agg" and t[1] == "array":
         return ("arr", tuple(_n(x, env, wide) for x in t[4]))
     if k == "field" and t[2] == 0 and t[1][0] == "downcast" and t[1][2] == 1 and is_call(t[1][1]) and t[1][1][1].endswith("<impl [T]>::get") and len(t[1][1][2]) == 2 and t[1][1][2][1][0] != "agg":
@@ -213,6 +217,23 @@ def _bv(t, env):
             if op.startswith("Shl"):
                 return ((ZERO,) * n + a)[:len(a)]
             return a[n:] + (ZERO,) * n
+        if op == "BitAnd":
+            # a mask over the whole word is a mask over each byte
+            a, b = _bv(t[2], env), _bv(t[3], env)
+            if a is not None and b is not None and len(a) == len(b):
+                out = []
+                for x, y in zip(a, b):
+                    if x[0] == "int" and y[0] == "int":
+                        out.append(("int", x[1] & y[1]))
+                    elif x == ZERO or y == ZERO:
+                        out.append(ZERO)
+                    elif x == ("int", 255):
+                        out.append(y)
+                    elif y == ("int", 255):
+                        out.append(x)
+                    else:
+                        out.append(("and", frozenset([x, y])))
+                return tuple(out)
         if op == "BitOr":
             a, b = _bv(t[2], env), _bv(t[3], env)
             if a is None or b is None or len(a) != len(b):
